@@ -1190,10 +1190,10 @@ Proof.
 Qed.
 
 Lemma denote_bar ts : denote (TBar ts) = cunion (map denote ts).
-Proof. cbn [denote]. f_equal. induction ts as [|t ts IH]; [reflexivity|]. cbn [map]. now rewrite <- IH. Qed.
+Proof. reflexivity. Qed.
 
 Lemma denote_union args : denote (TSub "Union" args) = cunion (map denote args).
-Proof. cbn. f_equal. induction args as [|t ts IH]; [reflexivity|]. cbn [map]. now rewrite <- IH. Qed.
+Proof. reflexivity. Qed.
 
 Lemma denote_optional a : denote (TSub "Optional" [a]) = cunion [denote a; CNone].
 Proof. reflexivity. Qed.
@@ -1226,14 +1226,21 @@ Qed.
 
 Lemma render_name_not_dots sp b d : wf_cty b = true -> render sp b = TName d -> String.eqb d "..." = false.
 Proof.
-  destruct b; try discriminate; intros Hw E.
-  - cbn [render] in E. injection E as <-. cbn [wf_cty] in Hw. now apply (wf_name_not_reserved n "...").
-  - destruct sp; discriminate.
-  - destruct sp; discriminate.
-  - destruct sp; discriminate.
-  - destruct sp; discriminate.
-  - rewrite render_union_eq in E. destruct sp; try discriminate; destruct (existsb is_tnone _); try discriminate;
-      destruct (filter _ _) as [|? [|? ?]]; discriminate.
+  intros Hw E. destruct b; cbn [wf_cty] in Hw; try discriminate Hw.
+  - cbn [render] in E. injection E as <-. now apply (wf_name_not_reserved n "...").
+  - cbn [render] in E. discriminate E.
+  - cbn [render] in E. discriminate E.
+  - cbn [render] in E. discriminate E.
+  - cbn [render] in E. discriminate E.
+  - rewrite render_union_eq in E. destruct sp; try discriminate E; destruct (existsb is_tnone _); try discriminate E;
+      destruct (filter _ _) as [|? [|? ?]]; discriminate E.
+Qed.
+
+Lemma NoDup_app_l {A} (a b : list A) : NoDup (a ++ b) -> NoDup a.
+Proof.
+  induction a as [|x a IH]; intros H; [constructor|]. inversion H; subst. constructor.
+  - intros Hin. apply H2. apply in_or_app. now left.
+  - now apply IH.
 Qed.
 
 Theorem denote_render sp c : wf_cty c = true -> denote (render sp c) = c.
@@ -1267,9 +1274,859 @@ Proof.
         { apply Hmem. intros x [<-|[]]. now left. } now injection H0. }
       rewrite Ea. apply cunion_flat; [now apply flat_cmembers_id|exact Hnd|exact Hlen].
     + subst l. rewrite denote_optional, denote_union, Hmem by (intros x Hx; apply in_or_app; now left).
-      assert (Hnd' : NoDup l') by (apply NoDup_app_remove_r in Hnd; exact Hnd).
+      assert (Hnd' : NoDup l') by (now apply NoDup_app_l in Hnd).
       assert (Hnu' : forall c, In c l' -> is_cunion c = false) by (intros c Hc; apply Hnu; apply in_or_app; now left).
       rewrite (cunion_flat l' l' (flat_cmembers_id l' Hnu') Hnd' Hl').
       apply cunion_flat; [|exact Hnd|exact Hlen].
       cbn [flat_map cmembers]. now rewrite app_nil_r.
+Qed.
+
+(* ---------- what Python builds from each spelling ---------- *)
+Definition env_ok (env : list (string * string)) : bool := forallb (fun kv => String.eqb (fst kv) (snd kv)) env.
+
+Lemma rename_id env n : env_ok env = true -> rename env n = n.
+Proof.
+  unfold rename, env_ok. induction env as [|[k v] env IH]; intros H; [reflexivity|].
+  cbn [forallb fst snd] in H. apply andb_true_iff in H as [Hkv He]. cbn [assoc].
+  destruct (String.eqb k n) eqn:E; [|now apply IH].
+  apply String.eqb_eq in E, Hkv. congruence.
+Qed.
+
+Lemma eval_sub env n args :
+  eval env (TSub n args) =
+  bind (mapM (eval env) args) (fun rs =>
+    match head_of (rename env n) with
+    | Some (HGen true o) => if arity_ok o (List.length rs) then Ok (RGen true o (map none_to_cls rs)) else Err type_error
+    | Some (HGen false o) => Ok (RGen false o rs)
+    | Some HOptional => match rs with [a] => mk_tunion [a; RCls "NoneType"] | _ => Err type_error end
+    | Some HUnion => mk_tunion rs
+    | None => Err type_error
+    end).
+Proof. reflexivity. Qed.
+
+Lemma eval_bar env ts :
+  eval env (TBar ts) =
+  bind (mapM (eval env) ts) (fun rs => match rs with [] => Err (Raise "SyntaxError") | a :: r => fold_or a r end).
+Proof. reflexivity. Qed.
+
+Lemma head_of_wf n : wf_name n = true -> head_of n = None.
+Proof.
+  intros H. unfold head_of.
+  rewrite (wf_name_not_reserved n "List" H eq_refl), (wf_name_not_reserved n "list" H eq_refl),
+    (wf_name_not_reserved n "Tuple" H eq_refl), (wf_name_not_reserved n "tuple" H eq_refl),
+    (wf_name_not_reserved n "Dict" H eq_refl), (wf_name_not_reserved n "dict" H eq_refl),
+    (wf_name_not_reserved n "Set" H eq_refl), (wf_name_not_reserved n "set" H eq_refl),
+    (wf_name_not_reserved n "Type" H eq_refl), (wf_name_not_reserved n "type" H eq_refl),
+    (wf_name_not_reserved n "Optional" H eq_refl), (wf_name_not_reserved n "Union" H eq_refl).
+  reflexivity.
+Qed.
+
+Lemma head_of_gen sp o : head_of (gen_name sp o) = Some (HGen (match sp with SpTyping => true | _ => false end) o).
+Proof. destruct sp, o; reflexivity. Qed.
+
+Lemma map_none_to_cls_rt sp l : forallb wf_cty l = true -> map none_to_cls (map (rt sp) l) = map (rt sp) l.
+Proof.
+  intros H. rewrite map_map. apply map_ext_in. intros c Hc. rewrite forallb_forall in H. now apply rt_none_iff, H.
+Qed.
+
+Lemma mk_tunion_norm l l' : map none_to_cls l = map none_to_cls l' -> mk_tunion l = mk_tunion l'.
+Proof. unfold mk_tunion. now intros ->. Qed.
+
+Lemma none_to_cls_idem r : none_to_cls (none_to_cls r) = none_to_cls r.
+Proof. destruct r; reflexivity. Qed.
+
+Lemma rt604_plain c : member_ok c = true ->
+  typingish (rt Sp604 c) = false /\ unionable (rt Sp604 c) = true.
+Proof.
+  unfold member_ok. intros H. apply orb_true_iff in H as [H|H].
+  - destruct c; try discriminate. split; reflexivity.
+  - apply andb_true_iff in H as [_ Hw]. destruct c; try discriminate Hw; split; reflexivity.
+Qed.
+
+Lemma bin_or_plain a b :
+  typingish a = false -> typingish b = false -> unionable a = true -> unionable b = true ->
+  (a = RNone -> b = RNone -> False) ->
+  bin_or a b = match rdedupe (flat_map union_members [none_to_cls a; none_to_cls b]) [] with
+               | [] => Err type_error
+               | [x] => Ok x
+               | l => Ok (RUType l)
+               end.
+Proof.
+  intros Ha Hb Hua Hub Hn. unfold bin_or. rewrite Ha, Hb, Hua, Hub. cbn [orb andb].
+  destruct a; try discriminate Hua; destruct b; try discriminate Hub; try reflexivity.
+  exfalso. now apply Hn.
+Qed.
+
+Lemma fold_or_acc accs rest :
+  2 <= List.length accs -> NoDup (accs ++ map (mrt Sp604) rest) -> forallb member_ok rest = true ->
+  fold_or (RUType accs) (map (rt Sp604) rest) = Ok (RUType (accs ++ map (mrt Sp604) rest)).
+Proof.
+  revert accs. induction rest as [|c rest IH]; intros accs Hlen Hnd Hm.
+  - cbn [map fold_or]. now rewrite app_nil_r.
+  - cbn [forallb] in Hm. apply andb_true_iff in Hm as [Hc Hm]. cbn [map fold_or].
+    destruct (rt604_plain c Hc) as [Ht Hu]. destruct (mrt_not_union Sp604 c Hc) as [Hum _].
+    rewrite bin_or_plain; [|reflexivity|exact Ht|reflexivity|exact Hu|discriminate].
+    cbn [none_to_cls flat_map union_members]. fold (mrt Sp604 c). rewrite Hum, app_nil_r.
+    assert (Hnd1 : NoDup (accs ++ [mrt Sp604 c])).
+    { cbn [map] in Hnd. replace (accs ++ mrt Sp604 c :: map (mrt Sp604) rest)
+        with ((accs ++ [mrt Sp604 c]) ++ map (mrt Sp604) rest) in Hnd by (now rewrite <- app_assoc).
+      now apply NoDup_app_l in Hnd. }
+    rewrite rdedupe_nodup; [|exact Hnd1|intros x _ []].
+    destruct (accs ++ [mrt Sp604 c]) as [|x [|y l0]] eqn:E.
+    + destruct accs; discriminate.
+    + destruct accs as [|? [|? ?]]; cbn [List.length] in Hlen; try lia; discriminate.
+    + cbn [bind]. rewrite <- E. rewrite IH.
+      * now rewrite <- app_assoc.
+      * rewrite app_length. cbn [List.length]. lia.
+      * cbn [map] in Hnd. now rewrite <- app_assoc.
+      * exact Hm.
+Qed.
+
+Lemma fold_or_members a b rest :
+  NoDup (a :: b :: rest) -> forallb member_ok (a :: b :: rest) = true ->
+  fold_or (rt Sp604 a) (map (rt Sp604) (b :: rest)) = Ok (RUType (map (mrt Sp604) (a :: b :: rest))).
+Proof.
+  intros Hnd Hm. pose proof (NoDup_mrt Sp604 _ Hnd Hm) as Hnd'.
+  cbn [forallb] in Hm. apply andb_true_iff in Hm as [Ha Hm]. apply andb_true_iff in Hm as [Hb Hm].
+  cbn [map fold_or].
+  destruct (rt604_plain a Ha) as [Hta Hua]. destruct (rt604_plain b Hb) as [Htb Hub].
+  destruct (mrt_not_union Sp604 a Ha) as [Hma _]. destruct (mrt_not_union Sp604 b Hb) as [Hmb _].
+  rewrite bin_or_plain; [|exact Hta|exact Htb|exact Hua|exact Hub|].
+  - cbn [flat_map]. fold (mrt Sp604 a). fold (mrt Sp604 b). rewrite Hma, Hmb. cbn [app].
+    cbn [map] in Hnd'.
+    rewrite rdedupe_nodup; [|inversion Hnd' as [|? ? H1 H2]; inversion H2; subst; constructor;
+                              [intros [E|[]]; apply H1; now left|constructor; [intros []|constructor]]
+                            |intros x _ []].
+    cbn [bind]. rewrite (fold_or_acc [mrt Sp604 a; mrt Sp604 b] rest); [reflexivity|cbn [List.length]; lia|exact Hnd'|exact Hm].
+  - intros Ea Eb. inversion Hnd as [|? ? H1 _]. apply H1. left.
+    destruct a; try discriminate Ea; destruct b; try discriminate Eb; try reflexivity;
+      cbn [rt] in Ea, Eb; discriminate.
+Qed.
+
+(* the runtime object of each spelling of a grammar type (names bound as usual) *)
+Theorem eval_render env sp c : env_ok env = true -> wf_cty c = true -> eval env (render sp c) = Ok (rt sp c).
+Proof.
+  intros He. induction c as [n| | |a IH|l IH|a IH|k v IHk IHv|l IH|] using cty_ind2; intros Hw; try discriminate.
+  - cbn [wf_cty] in Hw. cbn [render eval rt]. rewrite rename_id by exact He. cbv zeta.
+    rewrite (wf_name_not_reserved n "None" Hw eq_refl), (wf_name_not_reserved n "..." Hw eq_refl).
+    now rewrite head_of_wf.
+  - cbn [wf_cty] in Hw. cbn [render]. rewrite eval_sub. cbn [mapM]. rewrite IH by exact Hw. cbn [bind].
+    rewrite rename_id, head_of_gen by exact He. cbn [rt].
+    destruct sp; cbn [List.length arity_ok Nat.eqb map]; rewrite ?rt_none_iff by exact Hw; reflexivity.
+  - cbn [wf_cty] in Hw. apply andb_true_iff in Hw as [Hne Hl]. cbn [render]. rewrite eval_sub.
+    rewrite (mapM_map_ok (eval env) (render sp) (rt sp)).
+    + cbn [bind]. rewrite rename_id, head_of_gen by exact He. cbn [rt].
+      destruct sp; try reflexivity. rewrite map_length.
+      destruct l as [|x l]; [discriminate|]. cbn [List.length arity_ok Nat.ltb Nat.leb].
+      now rewrite map_none_to_cls_rt.
+    + intros x Hx. rewrite Forall_forall in IH. rewrite forallb_forall in Hl. auto.
+  - cbn [wf_cty] in Hw. cbn [render]. rewrite eval_sub. cbn [mapM]. rewrite IH by exact Hw. cbn [bind eval].
+    rewrite (rename_id env "...") by exact He. cbv zeta. cbn [String.eqb Ascii.eqb Bool.eqb andb bind].
+    rewrite rename_id, head_of_gen by exact He. cbn [rt].
+    destruct sp; cbn [List.length arity_ok Nat.ltb Nat.leb map none_to_cls]; rewrite ?rt_none_iff by exact Hw; reflexivity.
+  - cbn [wf_cty] in Hw. apply andb_true_iff in Hw as [Hk Hv]. cbn [render]. rewrite eval_sub. cbn [mapM].
+    rewrite IHk, IHv by assumption. cbn [bind]. rewrite rename_id, head_of_gen by exact He. cbn [rt].
+    destruct sp; cbn [List.length arity_ok Nat.eqb map]; rewrite ?rt_none_iff by assumption; reflexivity.
+  - destruct (wf_union_parts l Hw) as [Hlen [Hlast [Hnd Hm]]].
+    assert (Hmem : forall l0, (forall x, In x l0 -> In x l) -> mapM (eval env) (map (render sp) l0) = Ok (map (rt sp) l0)).
+    { intros l0 Hsub. apply mapM_map_ok. intros x Hx0. pose proof (Hsub x Hx0) as Hx.
+      rewrite forallb_forall in Hm. specialize (Hm x Hx). unfold member_ok in Hm. apply orb_true_iff in Hm as [Hn|Hx2].
+      - destruct x; try discriminate. cbn [render eval rt]. rewrite rename_id by exact He. reflexivity.
+      - apply andb_true_iff in Hx2 as [_ Hxw]. rewrite Forall_forall in IH. now apply IH. }
+    assert (Hrt : forall s, s <> Sp604 -> rt s (CUnion l) = RTUnion (map (mrt s) l)) by (intros s Hs; destruct s; try congruence; reflexivity).
+    destruct (render_union sp l Hw) as [Hsp E|Hsp Hn E|a Hsp El Ha E|l' Hsp El Hl' Hn E]; rewrite E.
+    + subst sp. rewrite eval_bar, Hmem by auto. cbn [bind].
+      destruct l as [|a [|b rest]]; cbn [List.length] in Hlen; try lia.
+      exact (fold_or_members a b rest Hnd Hm).
+    + rewrite eval_sub, Hmem by auto. cbn [bind]. rewrite (rename_id env "Union") by exact He.
+      cbn [head_of String.eqb Ascii.eqb Bool.eqb andb].
+      rewrite (mk_tunion_norm _ (map (mrt sp) l)).
+      * rewrite mk_tunion_members by assumption. now rewrite Hrt.
+      * rewrite !map_map. apply map_ext. intros c. unfold mrt. now rewrite none_to_cls_idem.
+    + subst l. rewrite eval_sub. change [render sp a] with (map (render sp) [a]).
+      rewrite (Hmem [a]) by (intros x [<-|[]]; now left). cbn [map bind].
+      rewrite (rename_id env "Optional") by exact He. cbn [head_of String.eqb Ascii.eqb Bool.eqb andb].
+      rewrite (mk_tunion_norm _ (map (mrt sp) [a; CNone])).
+      * rewrite mk_tunion_members by assumption. now rewrite Hrt.
+      * cbn [map]. unfold mrt. now rewrite none_to_cls_idem.
+    + subst l. rewrite eval_sub. cbn [mapM]. rewrite eval_sub.
+      rewrite Hmem by (intros x Hx; apply in_or_app; now left). cbn [bind].
+      rewrite (rename_id env "Union"), (rename_id env "Optional") by exact He.
+      cbn [head_of String.eqb Ascii.eqb Bool.eqb andb].
+      assert (Hnd' : NoDup l') by (now apply NoDup_app_l in Hnd).
+      assert (Hm' : forallb member_ok l' = true).
+      { rewrite forallb_forall in *. intros x Hx. apply Hm. apply in_or_app. now left. }
+      rewrite (mk_tunion_norm _ (map (mrt sp) l')).
+      2:{ rewrite !map_map. apply map_ext. intros c. unfold mrt. now rewrite none_to_cls_idem. }
+      rewrite mk_tunion_members by assumption. cbn [bind].
+      rewrite Hrt by exact Hsp. unfold mk_tunion. cbn [map none_to_cls flat_map union_members].
+      rewrite app_nil_r.
+      assert (E2 : map (mrt sp) l' ++ [RCls "NoneType"] = map (mrt sp) (l' ++ [CNone])) by (rewrite map_app; reflexivity).
+      cbn [app]. rewrite E2. rewrite rdedupe_nodup; [|now apply NoDup_mrt|intros x _ []].
+      destruct (map (mrt sp) (l' ++ [CNone])) as [|x [|y r]] eqn:E3; [| |reflexivity].
+      * apply (f_equal (@List.length rty)) in E3. rewrite map_length in E3. cbn [List.length] in E3. lia.
+      * apply (f_equal (@List.length rty)) in E3. rewrite map_length in E3. cbn [List.length] in E3. lia.
+Qed.
+
+(* ---------- the resolution pipeline: every rendering of a grammar type resolves to the same canonical type ---------- *)
+Definition is_sp604 (sp : spelling) : bool := match sp with Sp604 => true | _ => false end.
+
+(* the excluded inputs: a string annotation written with bars whose top level is a union containing Tuple[X, ...] *)
+Definition resolve_safe (sp : spelling) (postponed initvar : bool) (c : cty) : bool :=
+  negb postponed || negb (is_sp604 sp) || initvar || negb (is_cunion c) || negb (has_variadic c).
+
+Lemma forward_refs_ok : env_ok FORWARD_REFS_GEN = true.
+Proof. reflexivity. Qed.
+
+Lemma rt_utype sp c l : rt sp c = RUType l -> sp = Sp604 /\ is_cunion c = true.
+Proof. destruct c; try discriminate; destruct sp; try discriminate. intros _. split; reflexivity. Qed.
+
+Theorem resolve_render sp postponed initvar c :
+  wf_cty c = true -> resolve_safe sp postponed initvar c = true ->
+  exists r, resolve_gen postponed initvar (render sp c) = Ok r /\ canon r = c.
+Proof.
+  intros Hw Hs. unfold resolve_gen, resolve. destruct postponed.
+  - rewrite (eval_render FORWARD_REFS_GEN sp c forward_refs_ok Hw). cbn [bind]. cbv zeta.
+    rewrite (rt_none_iff sp c Hw).
+    destruct (rt sp c) as [n| | |al o args|args|args] eqn:E;
+      try (eexists; split; [reflexivity|rewrite <- E; now apply canon_rt]).
+    destruct (rt_utype sp c args E) as [-> Hu].
+    destruct initvar; [eexists; split; [reflexivity|rewrite <- E; now apply canon_rt]|].
+    unfold resolve_safe in Hs. rewrite Hu in Hs. cbn in Hs. apply negb_true_iff in Hs.
+    rewrite <- E. fold norm_gen. rewrite (norm_rt604 c Hw Hs). eexists. split; [reflexivity|now apply canon_rt].
+  - rewrite (eval_render [] sp c eq_refl Hw). eexists. split; [reflexivity|now apply canon_rt].
+Qed.
+
+(* ====================================================================================================== *)
+(* D. the field list of a class in an inheritance chain                                                    *)
+(* ====================================================================================================== *)
+Section FieldProofs.
+  Context {A : Type}.
+  Implicit Types l acc x y c kvs : list (string * A).
+  Implicit Types p chain : list (list (string * A)).
+
+  Fixpoint lookup (k : string) l : option A :=
+    match l with [] => None | (k', v) :: r => if String.eqb k' k then Some v else lookup k r end.
+
+  Definition keys l : list string := map fst l.
+
+  Lemma keys_set_field kv l :
+    keys (set_field kv l) = if str_in (fst kv) (keys l) then keys l else keys l ++ [fst kv].
+  Proof.
+    induction l as [|[k v] l IH]; [reflexivity|]. cbn [set_field keys map fst].
+    unfold str_in. cbn [existsb]. rewrite (String.eqb_sym (fst kv) k).
+    destruct (String.eqb k (fst kv)) eqn:E; cbn [orb keys map fst]; [reflexivity|].
+    fold (keys (set_field kv l)). fold (keys l). rewrite IH. fold (str_in (fst kv) (keys l)).
+    destruct (str_in (fst kv) (keys l)); reflexivity.
+  Qed.
+
+  Lemma lookup_set_field kv l k :
+    lookup k (set_field kv l) = if String.eqb (fst kv) k then Some (snd kv) else lookup k l.
+  Proof.
+    induction l as [|[k' v'] l IH].
+    - destruct kv as [a b]. reflexivity.
+    - cbn [set_field]. destruct (String.eqb k' (fst kv)) eqn:E.
+      + apply String.eqb_eq in E. subst k'. cbn [lookup]. destruct (String.eqb (fst kv) k); reflexivity.
+      + cbn [lookup]. rewrite IH. destruct (String.eqb k' k) eqn:E2; [|reflexivity].
+        apply String.eqb_eq in E2. subst k'. rewrite String.eqb_sym in E. now rewrite E.
+  Qed.
+
+  Lemma nodup_keys_set_field kv l : NoDup (keys l) -> NoDup (keys (set_field kv l)).
+  Proof.
+    intros H. rewrite keys_set_field. destruct (str_in (fst kv) (keys l)) eqn:E; [exact H|].
+    apply str_in_false in E. apply NoDup_rev in H. rewrite <- (rev_involutive (keys l ++ [fst kv])).
+    apply NoDup_rev. rewrite rev_app_distr. cbn [rev app]. constructor; [|exact H].
+    intros Hin. apply E. now apply in_rev.
+  Qed.
+
+  (* an association list with distinct keys is determined by its key order and its lookups *)
+  Lemma assoc_ext l1 : forall l2,
+    NoDup (keys l1) -> keys l1 = keys l2 -> (forall k, lookup k l1 = lookup k l2) -> l1 = l2.
+  Proof.
+    induction l1 as [|[k v] l1 IH]; intros [|[k2 v2] l2] Hnd Hk Hl; try discriminate; [reflexivity|].
+    cbn [keys map fst] in Hk. injection Hk as -> Hk. inversion Hnd as [|? ? Hnin Hnd1]; subst.
+    pose proof (Hl k2) as H0. cbn [lookup] in H0. rewrite String.eqb_refl in H0. injection H0 as ->.
+    f_equal. apply IH; [exact Hnd1|exact Hk|]. intros k. specialize (Hl k). cbn [lookup] in Hl.
+    destruct (String.eqb k2 k) eqn:E; [|exact Hl].
+    apply String.eqb_eq in E. subst k.
+    assert (N1 : lookup k2 l1 = None).
+    { clear -Hnin. induction l1 as [|[a b] l1 IH1]; [reflexivity|]. cbn [lookup].
+      destruct (String.eqb a k2) eqn:E; [apply String.eqb_eq in E; subst; exfalso; apply Hnin; now left|].
+      apply IH1. intros H. apply Hnin. now right. }
+    assert (N2 : lookup k2 l2 = None).
+    { assert (Hnin2 : ~ In k2 (keys l2)) by (unfold keys in *; now rewrite <- Hk).
+      clear -Hnin2. induction l2 as [|[a b] l2 IH1]; [reflexivity|]. cbn [lookup].
+      destruct (String.eqb a k2) eqn:E; [apply String.eqb_eq in E; subst; exfalso; apply Hnin2; now left|].
+      apply IH1. intros H. apply Hnin2. now right. }
+    now rewrite N1, N2.
+  Qed.
+
+  Lemma nodup_keys_set_all kvs acc : NoDup (keys acc) -> NoDup (keys (set_all kvs acc)).
+  Proof.
+    revert acc. induction kvs as [|kv kvs IH]; intros acc H; [exact H|].
+    cbn [set_all fold_left]. apply IH. now apply nodup_keys_set_field.
+  Qed.
+
+  Lemma lookup_set_all kvs : forall acc k,
+    lookup k (set_all kvs acc) = match lookup k (rev kvs) with Some v => Some v | None => lookup k acc end.
+  Proof.
+    induction kvs as [|kv kvs IH]; intros acc k; [reflexivity|].
+    cbn [set_all fold_left]. fold (set_all kvs (set_field kv acc)). rewrite IH, lookup_set_field.
+    cbn [rev].
+    assert (Happ : forall l1 l2, lookup k (l1 ++ l2) = match lookup k l1 with Some v => Some v | None => lookup k l2 end).
+    { induction l1 as [|[a b] l1 IHl]; intros l2; [reflexivity|]. cbn [app lookup]. destruct (String.eqb a k); [reflexivity|apply IHl]. }
+    rewrite Happ. destruct (lookup k (rev kvs)); [reflexivity|].
+    destruct kv as [a b]. cbn [lookup fst snd]. destruct (String.eqb a k); reflexivity.
+  Qed.
+
+  (* re-applying the declarations of a prefix of what has been applied changes nothing *)
+  Lemma set_all_keys kvs : forall acc,
+    keys (set_all kvs acc) = fold_left (fun ks k => if str_in k ks then ks else ks ++ [k]) (keys kvs) (keys acc).
+  Proof.
+    induction kvs as [|kv kvs IH]; intros acc; [reflexivity|].
+    cbn [set_all fold_left keys map]. fold (set_all kvs (set_field kv acc)). rewrite IH, keys_set_field. reflexivity.
+  Qed.
+
+  Definition addk (ks : list string) (k : string) : list string := if str_in k ks then ks else ks ++ [k].
+
+  Lemma keys_set_all kvs acc : keys (set_all kvs acc) = fold_left addk (keys kvs) (keys acc).
+  Proof. apply set_all_keys. Qed.
+
+  Lemma fold_addk_in zs : forall ks, (forall z, In z zs -> In z ks) -> fold_left addk zs ks = ks.
+  Proof.
+    induction zs as [|z zs IH]; intros ks H; [reflexivity|]. cbn [fold_left]. unfold addk at 2.
+    assert (E : str_in z ks = true) by (apply str_in_In; apply H; now left). rewrite E.
+    apply IH. intros y Hy. apply H. now right.
+  Qed.
+
+  Lemma fold_addk_fresh rest : forall ks, NoDup (ks ++ rest) -> fold_left addk rest ks = ks ++ rest.
+  Proof.
+    induction rest as [|r rest IH]; intros ks H; [now rewrite app_nil_r|]. cbn [fold_left]. unfold addk at 2.
+    assert (E : str_in r ks = false).
+    { apply str_in_false. intros Hin. apply NoDup_remove_2 in H. apply H. apply in_or_app. now left. }
+    rewrite E. rewrite IH; [now rewrite <- app_assoc|]. now rewrite <- app_assoc.
+  Qed.
+
+  Lemma fold_addk_prefix zs : forall ks, exists rest, fold_left addk zs ks = ks ++ rest.
+  Proof.
+    induction zs as [|z zs IH]; intros ks; [exists []; now rewrite app_nil_r|]. cbn [fold_left]. unfold addk at 2.
+    destruct (str_in z ks); [apply IH|]. destruct (IH (ks ++ [z])) as [rest E]. exists (z :: rest).
+    rewrite E. now rewrite <- app_assoc.
+  Qed.
+
+  Lemma lookup_app k l1 l2 :
+    lookup k (l1 ++ l2) = match lookup k l1 with Some v => Some v | None => lookup k l2 end.
+  Proof.
+    induction l1 as [|[a b] l1 IH]; [reflexivity|]. cbn [app lookup]. destruct (String.eqb a k); [reflexivity|apply IH].
+  Qed.
+
+  Lemma lookup_notin k l : ~ In k (keys l) -> lookup k l = None.
+  Proof.
+    induction l as [|[a b] l IH]; intros H; [reflexivity|]. cbn [lookup].
+    destruct (String.eqb a k) eqn:E; [apply String.eqb_eq in E; subst; exfalso; apply H; now left|].
+    apply IH. intros Hin. apply H. now right.
+  Qed.
+
+  Lemma lookup_none_notin k l : lookup k l = None -> ~ In k (keys l).
+  Proof.
+    induction l as [|[a b] l IH]; intros H; [intros []|]. cbn [lookup] in H.
+    destruct (String.eqb a k) eqn:E; [discriminate|]. intros [Hin|Hin].
+    - cbn [fst] in Hin. subst. now rewrite String.eqb_refl in E.
+    - now apply IH.
+  Qed.
+
+  Lemma lookup_rev_nodup k l : NoDup (keys l) -> lookup k (rev l) = lookup k l.
+  Proof.
+    induction l as [|[a b] l IH]; intros H; [reflexivity|]. inversion H; subst.
+    cbn [rev]. rewrite lookup_app, IH by assumption. cbn [lookup].
+    destruct (String.eqb a k) eqn:E.
+    - apply String.eqb_eq in E. subst. now rewrite (lookup_notin k l).
+    - destruct (lookup k l); reflexivity.
+  Qed.
+
+  Definition S_ (l : list (string * A)) : list (string * A) := set_all l [].
+
+  Lemma set_all_app l1 l2 acc : set_all (l1 ++ l2) acc = set_all l2 (set_all l1 acc).
+  Proof. unfold set_all. apply fold_left_app. Qed.
+
+  Lemma S_nodup l : NoDup (keys (S_ l)).
+  Proof. apply nodup_keys_set_all. constructor. Qed.
+
+  Lemma lookup_S k l : lookup k (S_ l) = lookup k (rev l).
+  Proof. unfold S_. rewrite lookup_set_all. destruct (lookup k (rev l)); reflexivity. Qed.
+
+  (* a base's fields, applied on top of the fields of the bases before it, give that base's fields *)
+  Lemma absorb x y : set_all (S_ (x ++ y)) (S_ x) = S_ (x ++ y).
+  Proof.
+    apply assoc_ext.
+    - apply nodup_keys_set_all, S_nodup.
+    - rewrite keys_set_all.
+      assert (Hp : exists rest, keys (S_ (x ++ y)) = keys (S_ x) ++ rest).
+      { unfold S_ at 1. rewrite set_all_app. fold (S_ x). rewrite keys_set_all. apply fold_addk_prefix. }
+      destruct Hp as [rest Hp]. rewrite Hp. rewrite fold_left_app.
+      rewrite (fold_addk_in (keys (S_ x)) (keys (S_ x))) by (intros z Hz; exact Hz). apply fold_addk_fresh. rewrite <- Hp. apply S_nodup.
+    - intros k. rewrite lookup_set_all, (lookup_rev_nodup k (S_ (x ++ y))) by apply S_nodup.
+      rewrite !lookup_S. rewrite rev_app_distr, lookup_app.
+      destruct (lookup k (rev y)); [reflexivity|]. destruct (lookup k (rev x)); reflexivity.
+  Qed.
+
+  Lemma all_class_fields_snoc p c :
+    all_class_fields (p ++ [c]) = all_class_fields p ++ [class_fields (all_class_fields p) c].
+  Proof. unfold all_class_fields. now rewrite fold_left_app. Qed.
+
+  Lemma chain_invariant p :
+    fold_left (fun acc bf => set_all bf acc) (all_class_fields p) [] = S_ (List.concat p)
+    /\ last (all_class_fields p) [] = S_ (List.concat p).
+  Proof.
+    induction p as [|c p IH] using rev_ind; [split; reflexivity|]. destruct IH as [IHa IHb].
+    rewrite all_class_fields_snoc, concat_app. cbn [List.concat]. rewrite app_nil_r.
+    assert (F : class_fields (all_class_fields p) c = S_ (List.concat p ++ c)).
+    { unfold class_fields. rewrite IHa. unfold S_. now rewrite set_all_app. }
+    rewrite F. split.
+    - rewrite fold_left_app. cbn [fold_left]. rewrite IHa. apply absorb.
+    - apply last_last.
+  Qed.
+
+  (* the class at the end of the chain has the fields of the flat class made of all declarations in order:
+     a re-declared name keeps its first position and takes its last declaration *)
+  Theorem chain_is_flat chain : chain_fields chain = chain_fields [List.concat chain].
+  Proof.
+    unfold chain_fields. rewrite (proj2 (chain_invariant chain)), (proj2 (chain_invariant [List.concat chain])).
+    cbn [List.concat]. now rewrite app_nil_r.
+  Qed.
+
+  Lemma set_field_fresh kv acc : ~ In (fst kv) (keys acc) -> set_field kv acc = acc ++ [kv].
+  Proof.
+    induction acc as [|[k v] acc IH]; intros H; [reflexivity|]. cbn [set_field].
+    destruct (String.eqb k (fst kv)) eqn:E; [apply String.eqb_eq in E; exfalso; apply H; left; exact E|].
+    cbn [app]. f_equal. apply IH. intros Hin. apply H. now right.
+  Qed.
+
+  Lemma set_all_fresh l : forall acc, NoDup (keys acc ++ keys l) -> set_all l acc = acc ++ l.
+  Proof.
+    induction l as [|kv l IH]; intros acc H; [now rewrite app_nil_r|].
+    cbn [set_all fold_left]. fold (set_all l (set_field kv acc)).
+    cbn [keys map] in H. rewrite set_field_fresh.
+    - rewrite IH; [now rewrite <- app_assoc|]. unfold keys. rewrite map_app. cbn [map]. now rewrite <- app_assoc.
+    - apply NoDup_remove_2 in H. intros Hin. apply H. apply in_or_app. now left.
+  Qed.
+
+  (* no name declared twice: the chain is exactly the concatenation of its segments *)
+  Theorem chain_split chain : NoDup (keys (List.concat chain)) -> chain_fields chain = List.concat chain.
+  Proof.
+    intros H. unfold chain_fields. rewrite (proj2 (chain_invariant chain)). unfold S_. now apply set_all_fresh.
+  Qed.
+
+  (* ---------- against the independently written spec ---------- *)
+  Lemma fold_addk_dedupe (zs : list string) : forall ks seen,
+    (forall z, str_in z ks = str_in z seen) -> fold_left addk zs ks = ks ++ dedupe zs seen.
+  Proof.
+    induction zs as [|x zs IH]; intros ks seen H; [now rewrite app_nil_r|].
+    cbn [fold_left dedupe]. unfold addk at 2. rewrite <- H. destruct (str_in x ks) eqn:E.
+    - now apply IH.
+    - rewrite (IH (ks ++ [x]) (x :: seen)); [now rewrite <- app_assoc|].
+      intros z. unfold str_in. rewrite existsb_app. cbn [existsb]. rewrite orb_false_r.
+      fold (str_in z ks). fold (str_in z seen). rewrite H. apply orb_comm.
+  Qed.
+
+  Lemma lookup_rev_last k l :
+    lookup k (rev l) = option_map snd (last_opt (filter (fun kv => String.eqb (fst kv) k) l)).
+  Proof.
+    induction l as [|kv l IH] using rev_ind; [reflexivity|].
+    rewrite rev_app_distr, filter_app. cbn [rev app filter]. destruct kv as [a b]. cbn [lookup fst].
+    destruct (String.eqb a k).
+    - now rewrite last_opt_app.
+    - now rewrite app_nil_r.
+  Qed.
+
+  Lemma assoc_as_map l :
+    NoDup (keys l) ->
+    l = flat_map (fun n => match lookup n l with Some v => [(n, v)] | None => [] end) (keys l).
+  Proof.
+    induction l as [|[k v] l IH]; intros H; [reflexivity|]. inversion H; subst.
+    cbn [keys map fst flat_map lookup]. rewrite String.eqb_refl. cbn [app]. f_equal.
+    rewrite IH at 1 by assumption. fold (keys l).
+    assert (Hext : forall ks, (forall n, In n ks -> n <> k) ->
+              flat_map (fun n => match lookup n l with Some v0 => [(n, v0)] | None => [] end) ks =
+              flat_map (fun n => match (if String.eqb k n then Some v else lookup n l) with Some v0 => [(n, v0)] | None => [] end) ks).
+    { induction ks as [|n ks IHk]; intros Hk; [reflexivity|]. cbn [flat_map].
+      assert (E : String.eqb k n = false).
+      { destruct (String.eqb k n) eqn:E; [|reflexivity]. apply String.eqb_eq in E. exfalso. apply (Hk n); [now left|now symmetry]. }
+      rewrite E. f_equal. apply IHk. intros m Hm. apply Hk. now right. }
+    apply Hext. intros n Hn ->. contradiction.
+  Qed.
+
+  Theorem flat_meets_spec chain : chain_fields chain = spec_flat chain.
+  Proof.
+    unfold chain_fields. rewrite (proj2 (chain_invariant chain)). unfold spec_flat. cbv zeta.
+    rewrite (assoc_as_map (S_ (List.concat chain)) (S_nodup _)) at 1.
+    assert (Ek : keys (S_ (List.concat chain)) = dedupe (map fst (List.concat chain)) []).
+    { unfold S_. rewrite keys_set_all. now rewrite (fold_addk_dedupe _ [] []). }
+    rewrite Ek. apply flat_map_ext. intros n. rewrite lookup_S, lookup_rev_last. reflexivity.
+  Qed.
+End FieldProofs.
+
+(* ---------- the rewritten text means what the original text means ---------- *)
+Definition second_is_dots (args : list texp) : bool :=
+  match args with [_; TName d] => String.eqb d "..." | _ => false end.
+
+Lemma denote_sub n args :
+  denote (TSub n args) =
+  if is_list_name n then match map denote args with [a] => CList a | _ => CBad end
+  else if is_tuple_name n then
+    match args with
+    | [] => CBad
+    | _ => if second_is_dots args then match map denote args with a :: _ => CTupleVar a | [] => CBad end
+           else CTuple (map denote args)
+    end
+  else if is_dict_name n then match map denote args with [k; v] => CDict k v | _ => CBad end
+  else if String.eqb n "Optional" then match map denote args with [a] => cunion [a; CNone] | _ => CBad end
+  else if String.eqb n "Union" then cunion (map denote args)
+  else CBad.
+Proof.
+  cbn [denote]. destruct (is_list_name n); [destruct args as [|a [|b r]]; reflexivity|].
+  destruct (is_tuple_name n).
+  { destruct args as [|a [|b [|c r]]]; try reflexivity; destruct b; reflexivity. }
+  destruct (is_dict_name n); [destruct args as [|a [|b [|c r]]]; reflexivity|].
+  destruct (String.eqb n "Optional"); [destruct args as [|a [|b r]]; reflexivity|].
+  reflexivity.
+Qed.
+
+Theorem denote_to_old t : denote (to_old t) = denote t.
+Proof.
+  induction t as [n|n args IH|ts IH] using texp_ind2; [reflexivity| |].
+  - cbn [to_old]. rewrite !denote_sub.
+    assert (Em : map denote (map to_old args) = map denote args).
+    { rewrite map_map. apply map_ext_in. intros a Hin. rewrite Forall_forall in IH. now apply IH. }
+    assert (Es : second_is_dots (map to_old args) = second_is_dots args).
+    { destruct args as [|a [|b [|c r]]]; try reflexivity; destruct b; reflexivity. }
+    rewrite Em, Es. destruct args; reflexivity.
+  - cbn [to_old]. rewrite denote_union, denote_bar. f_equal.
+    rewrite map_map. apply map_ext_in. intros a Hin. rewrite Forall_forall in IH. now apply IH.
+Qed.
+
+(* ---------- every rendering of a class gives the wrapper field list the class denotes ---------- *)
+Lemma wrapper_fields_spec l :
+  map (fun kv => (fst kv, f_ty (snd kv))) (wrapper_fields_gen l) = spec_cli_fields l.
+Proof.
+  unfold spec_cli_fields, wrapper_fields_gen, wrapper_fields. f_equal. apply filter_ext.
+  intros [n [ty k i c]]. destruct k; reflexivity.
+Qed.
+
+Definition decl_safe (sp : spelling) (postponed : bool) (kv : string * fdecl) : bool :=
+  wf_cty (f_ty (snd kv)) && resolve_safe sp postponed (fkind_eqb (f_kind (snd kv)) KInitVar) (f_ty (snd kv)).
+
+Lemma field_types_ok sp postponed l :
+  forallb (decl_safe sp postponed) l = true -> field_types_gen sp postponed l = Ok (spec_cli_fields l).
+Proof.
+  intros H. unfold field_types_gen, field_types. fold resolve_gen. fold wrapper_fields_gen.
+  rewrite <- wrapper_fields_spec.
+  assert (Hsub : forall kv, In kv (wrapper_fields_gen l) -> decl_safe sp postponed kv = true).
+  { intros kv Hin. unfold wrapper_fields_gen, wrapper_fields in Hin. apply filter_In in Hin as [Hin _].
+    rewrite forallb_forall in H. now apply H. }
+  induction (wrapper_fields_gen l) as [|kv w IH]; [reflexivity|].
+  cbn [mapM map]. change ((fix go (l0 : list (string * fdecl)) : res (list (string * cty)) :=
+    match l0 with
+    | [] => Ok []
+    | x :: r => bind (bind (resolve_gen postponed (fkind_eqb (f_kind (snd x)) KInitVar) (render sp (f_ty (snd x))))
+                           (fun o => Ok (fst x, canon o)))
+                     (fun y => bind (go r) (fun ys => Ok (y :: ys)))
+    end) w) with (mapM (fun kv0 => bind (resolve_gen postponed (fkind_eqb (f_kind (snd kv0)) KInitVar) (render sp (f_ty (snd kv0))))
+                                        (fun o => Ok (fst kv0, canon o))) w).
+  pose proof (Hsub kv (or_introl eq_refl)) as Hk. unfold decl_safe in Hk. apply andb_true_iff in Hk as [Hw Hs].
+  destruct (resolve_render sp postponed _ _ Hw Hs) as [r [Hr Hc]]. rewrite Hr. cbn [bind]. rewrite Hc.
+  rewrite IH by (intros x Hx; apply Hsub; now right). reflexivity.
+Qed.
+
+Theorem chain_types_ok sp postponed chain :
+  forallb (decl_safe sp postponed) (chain_fields chain) = true ->
+  field_types_gen sp postponed (chain_fields chain) = Ok (spec_cli_fields (spec_flat chain)).
+Proof. intros H. rewrite (field_types_ok sp postponed _ H). now rewrite flat_meets_spec. Qed.
+
+(* ====================================================================================================== *)
+(* B'. the parser reads printed annotations back (so "parse (old_style (print t))" can be stated)           *)
+(* ====================================================================================================== *)
+Fixpoint tjoin (sep : tok) (l : list (list tok)) : list tok :=
+  match l with [] => [] | x :: r => match r with [] => x | _ => x ++ sep :: tjoin sep r end end.
+
+Fixpoint tk (t : texp) : list tok :=
+  match t with
+  | TName n => [KName (chars n)]
+  | TSub n args => KName (chars n) :: KL :: tjoin KComma (map tk args) ++ [KR]
+  | TBar ts => tjoin KBar (map tk ts)
+  end.
+
+Definition delim_start (s : list ascii) : bool := match s with [] => true | d :: _ => is_delim d end.
+
+Lemma lex_acc_name n : forall rest cur,
+  forallb (fun a => negb (is_delim a)) n = true -> lex_acc (n ++ rest) cur = lex_acc rest (rev n ++ cur).
+Proof.
+  induction n as [|a n IH]; intros rest cur H; [reflexivity|].
+  cbn [forallb] in H. apply andb_true_iff in H as [Ha Hn]. apply negb_true_iff in Ha.
+  unfold is_delim in Ha. repeat (apply orb_false_iff in Ha as [Ha ?]).
+  cbn [app lex_acc]. rewrite Ha, H, H0, H1, H2. rewrite IH by exact Hn. cbn [rev]. now rewrite <- app_assoc.
+Qed.
+
+Lemma lex_acc_flush rest cur :
+  delim_start rest = true -> cur <> [] -> lex_acc rest cur = KName (rev cur) :: lex_acc rest [].
+Proof.
+  intros Hd Hc. destruct rest as [|d r].
+  - cbn [lex_acc flush]. destruct cur; [congruence|reflexivity].
+  - cbn [delim_start] in Hd. cbn [lex_acc].
+    destruct (Ascii.eqb d "[") eqn:E1; [destruct cur; [congruence|reflexivity]|].
+    destruct (Ascii.eqb d "]") eqn:E2; [destruct cur; [congruence|reflexivity]|].
+    destruct (Ascii.eqb d "|") eqn:E3; [destruct cur; [congruence|reflexivity]|].
+    destruct (Ascii.eqb d ",") eqn:E4; [destruct cur; [congruence|reflexivity]|].
+    destruct (is_space d) eqn:E5; [destruct cur; [congruence|reflexivity]|].
+    unfold is_delim in Hd. rewrite E1, E2, E3, E4, E5 in Hd. discriminate.
+Qed.
+
+Lemma lex_name n rest :
+  nm_ok n = true -> delim_start rest = true -> lex_acc (chars n ++ rest) [] = KName (chars n) :: lex_acc rest [].
+Proof.
+  intros Hn Hd. pose proof (nm_ok_nonnil n Hn) as Hne. unfold nm_ok in Hn. apply andb_true_iff in Hn as [_ Hn].
+  rewrite lex_acc_name by exact Hn. rewrite app_nil_r, lex_acc_flush.
+  - now rewrite rev_involutive.
+  - exact Hd.
+  - intros E. apply Hne. apply (f_equal (@rev ascii)) in E. now rewrite rev_involutive in E.
+Qed.
+
+Lemma tjoin_cons2 sep x y l : tjoin sep (x :: y :: l) = x ++ sep :: tjoin sep (y :: l).
+Proof. reflexivity. Qed.
+
+Lemma lex_join (sepc : list ascii) (sept : tok) (l : list texp) :
+  (forall r, lex_acc (sepc ++ r) [] = sept :: lex_acc r []) ->
+  (forall r, delim_start (sepc ++ r) = true) ->
+  Forall (fun x => forall rest, delim_start rest = true -> lex_acc (pr x ++ rest) [] = tk x ++ lex_acc rest []) l ->
+  l <> [] -> forall R, delim_start R = true ->
+  lex_acc (joinl sepc (map pr l) ++ R) [] = tjoin sept (map tk l) ++ lex_acc R [].
+Proof.
+  intros Hsep Hds Hall. induction Hall as [|x l Hx Hall IH]; intros Hne R HR; [congruence|].
+  destruct l as [|y l].
+  - cbn [map joinl tjoin]. now apply Hx.
+  - cbn [map]. rewrite joinl_cons2, tjoin_cons2. rewrite <- !app_assoc. rewrite Hx by apply Hds.
+    rewrite Hsep. cbn [app]. f_equal. f_equal. apply IH; [discriminate|exact HR].
+Qed.
+
+Lemma lex_pr t :
+  names_ok t = true -> shape_ok t = true ->
+  forall rest, delim_start rest = true -> lex_acc (pr t ++ rest) [] = tk t ++ lex_acc rest [].
+Proof.
+  induction t as [n|n args IH|ts IH] using texp_ind2; intros Hn Hs rest Hd.
+  - cbn [pr tk names_ok] in *. now apply lex_name.
+  - cbn [names_ok shape_ok] in Hn, Hs. apply andb_true_iff in Hn as [Hnm Han]. apply andb_true_iff in Hs as [Hne Has].
+    rewrite pr_sub. cbn [tk]. rewrite <- app_assoc. rewrite lex_name by (try assumption; reflexivity).
+    cbn [app]. f_equal.
+    change (lex_acc (cL :: (joinl sepComma (map pr args) ++ [cR]) ++ rest) [])
+      with (KL :: lex_acc ((joinl sepComma (map pr args) ++ [cR]) ++ rest) []).
+    f_equal. rewrite <- !app_assoc.
+    rewrite (lex_join sepComma KComma args).
+    + reflexivity.
+    + intros r. reflexivity.
+    + intros r. reflexivity.
+    + rewrite Forall_forall in *. rewrite forallb_forall in Han, Has. intros x Hx. apply IH; auto.
+    + destruct args; [discriminate|discriminate].
+    + reflexivity.
+  - cbn [names_ok shape_ok] in Hn, Hs. apply andb_true_iff in Hs as [Hlen Has].
+    cbn [pr tk]. apply (lex_join sepBar KBar ts).
+    + intros r. reflexivity.
+    + intros r. reflexivity.
+    + rewrite Forall_forall in *. rewrite forallb_forall in Hn, Has. intros x Hx.
+      specialize (Has x Hx). apply andb_true_iff in Has as [_ Has]. apply IH; auto.
+    + destruct ts; [discriminate|discriminate].
+    + exact Hd.
+Qed.
+
+(* ---------- recursive descent on the tokens of a printed annotation ---------- *)
+Definition sumw (w : texp -> nat) (l : list texp) : nat := fold_right (fun x acc => w x + acc) 0 l.
+
+Fixpoint pw (t : texp) : nat :=
+  match t with
+  | TName _ => 1
+  | TSub _ args => 2 + fold_right (fun x acc => S (pw x) + acc) 0 args
+  | TBar ts => 1 + fold_right (fun x acc => pw x + acc) 0 ts
+  end.
+
+Lemma pw_pos t : 1 <= pw t.
+Proof. destruct t; cbn [pw]; lia. Qed.
+
+Definition nol (ts : list tok) : bool := match ts with KL :: _ => false | _ => true end.
+Definition nobar (ts : list tok) : bool := match ts with KBar :: _ => false | KL :: _ => false | _ => true end.
+
+Lemma p_expr_S n ts :
+  p_expr (S n) ts = match p_term n ts with None => None | Some (t, rest) => p_bars n [t] rest end.
+Proof. reflexivity. Qed.
+
+Lemma p_term_S_name n s rest : nol rest = true -> p_term (S n) (KName s :: rest) = Some (TName (unchars s), rest).
+Proof. intros H. destruct rest as [|k r]; [reflexivity|]. destruct k; try reflexivity. discriminate. Qed.
+
+Lemma p_term_S_sub n s rest :
+  p_term (S n) (KName s :: KL :: rest) =
+  match p_expr n rest with None => None | Some (a, rest') => p_args n (unchars s) [a] rest' end.
+Proof. reflexivity. Qed.
+
+Lemma p_bars_S_bar n acc rest :
+  p_bars (S n) acc (KBar :: rest) =
+  match p_term n rest with None => None | Some (t, rest') => p_bars n (acc ++ [t]) rest' end.
+Proof. reflexivity. Qed.
+
+Lemma p_bars_S_end n acc ts : nobar ts = true -> p_bars (S n) acc ts = Some (mk_bar acc, ts).
+Proof. intros H. destruct ts as [|k r]; [reflexivity|]. destruct k; try reflexivity; discriminate. Qed.
+
+Lemma p_args_S_comma n nm acc rest :
+  p_args (S n) nm acc (KComma :: rest) =
+  match p_expr n rest with None => None | Some (a, rest') => p_args n nm (acc ++ [a]) rest' end.
+Proof. reflexivity. Qed.
+
+Lemma p_args_S_end n nm acc rest : p_args (S n) nm acc (KR :: rest) = Some (TSub nm acc, rest).
+Proof. reflexivity. Qed.
+
+Definition PT (t : texp) : Prop :=
+  forall n rest, pw t <= n -> nol rest = true -> p_term n (tk t ++ rest) = Some (t, rest).
+Definition PE (t : texp) : Prop :=
+  forall n rest, pw t < n -> nobar rest = true -> p_expr n (tk t ++ rest) = Some (t, rest).
+
+Lemma tjoin_flat sep x l : tjoin sep (x :: l) = x ++ flat_map (fun y => sep :: y) l.
+Proof.
+  revert x. induction l as [|y l IH]; intros x; [cbn; now rewrite app_nil_r|].
+  rewrite tjoin_cons2, IH. reflexivity.
+Qed.
+
+Lemma p_args_list nm more : forall acc n rest,
+  Forall PE more -> 1 + fold_right (fun x a => S (pw x) + a) 0 more <= n ->
+  p_args n nm acc (flat_map (fun y => KComma :: y) (map tk more) ++ KR :: rest) = Some (TSub nm (acc ++ more), rest).
+Proof.
+  induction more as [|x more IH]; intros acc n rest Hall Hn.
+  - destruct n as [|n]; [cbn in Hn; lia|]. cbn [map flat_map app]. rewrite p_args_S_end. now rewrite app_nil_r.
+  - inversion Hall as [|? ? Hx Hm]; subst. cbn [fold_right] in Hn. destruct n as [|n]; [lia|].
+    cbn [map flat_map]. rewrite <- app_assoc. cbn [app]. rewrite p_args_S_comma.
+    rewrite Hx.
+    + rewrite IH; [now rewrite <- app_assoc|exact Hm|lia].
+    + lia.
+    + destruct more; reflexivity.
+Qed.
+
+Lemma p_bars_list more : forall acc n rest,
+  Forall PT more -> 1 + fold_right (fun x a => pw x + a) 0 more <= n -> nobar rest = true ->
+  p_bars n acc (flat_map (fun y => KBar :: y) (map tk more) ++ rest) = Some (mk_bar (acc ++ more), rest).
+Proof.
+  induction more as [|x more IH]; intros acc n rest Hall Hn Hr.
+  - destruct n as [|n]; [cbn in Hn; lia|]. cbn [map flat_map app]. rewrite p_bars_S_end by exact Hr. now rewrite app_nil_r.
+  - inversion Hall as [|? ? Hx Hm]; subst. cbn [fold_right] in Hn. destruct n as [|n]; [lia|].
+    cbn [map flat_map]. rewrite <- app_assoc. cbn [app]. rewrite p_bars_S_bar.
+    rewrite Hx.
+    + rewrite IH; [now rewrite <- app_assoc|exact Hm| |exact Hr]. pose proof (pw_pos x). lia.
+    + lia.
+    + destruct more; [|reflexivity]. cbn [map flat_map app]. destruct rest as [|k r]; [reflexivity|].
+      destruct k; try reflexivity; discriminate.
+Qed.
+
+Lemma unchars_chars n : unchars (chars n) = n.
+Proof. apply string_of_list_ascii_of_string. Qed.
+
+Lemma parse_tokens t : names_ok t = true -> shape_ok t = true -> (is_tbar t = false -> PT t) /\ PE t.
+Proof.
+  induction t as [nm|nm args IH|ts IH] using texp_ind2; intros Hn Hs.
+  - assert (T : PT (TName nm)).
+    { intros n rest Hw Hr. cbn [pw] in Hw. destruct n as [|n]; [lia|]. cbn [tk app].
+      rewrite p_term_S_name by exact Hr. now rewrite unchars_chars. }
+    split; [intros _; exact T|].
+    intros n rest Hw Hr. destruct n as [|n]; [lia|]. rewrite p_expr_S, T.
+    + cbn [pw] in Hw. destruct n as [|n]; [lia|]. now rewrite p_bars_S_end.
+    + lia.
+    + destruct rest as [|k r]; [reflexivity|]. destruct k; try reflexivity; discriminate.
+  - cbn [names_ok shape_ok] in Hn, Hs. apply andb_true_iff in Hn as [Hnm Han]. apply andb_true_iff in Hs as [Hne Has].
+    rewrite forallb_forall in Han, Has. rewrite Forall_forall in IH.
+    assert (HPE : Forall PE args).
+    { rewrite Forall_forall. intros x Hx. now apply IH; auto. }
+    assert (T : PT (TSub nm args)).
+    { intros n rest Hw Hr. cbn [pw] in Hw. destruct args as [|a more]; [discriminate|].
+      inversion HPE as [|? ? Ha Hmore]; subst. cbn [fold_right] in Hw.
+      destruct n as [|n]; [lia|]. cbn [tk map]. rewrite tjoin_flat. cbn [app]. rewrite p_term_S_sub.
+      rewrite <- !app_assoc. rewrite Ha.
+      - rewrite unchars_chars. cbn [app]. rewrite (p_args_list nm more [a] n rest Hmore); [reflexivity|lia].
+      - lia.
+      - destruct more; reflexivity. }
+    split; [intros _; exact T|].
+    intros n rest Hw Hr. destruct n as [|n]; [lia|]. rewrite p_expr_S, T.
+    + destruct n as [|n]; [cbn [pw] in Hw; lia|]. now rewrite p_bars_S_end.
+    + lia.
+    + destruct rest as [|k r]; [reflexivity|]. destruct k; try reflexivity; discriminate.
+  - split; [discriminate|].
+    cbn [names_ok shape_ok] in Hn, Hs. apply andb_true_iff in Hs as [Hlen Has].
+    rewrite forallb_forall in Hn, Has. rewrite Forall_forall in IH.
+    assert (HPT : Forall PT ts).
+    { rewrite Forall_forall. intros x Hx. specialize (Has x Hx). apply andb_true_iff in Has as [Hb Hsx].
+      apply negb_true_iff in Hb. now apply IH; auto. }
+    intros n rest Hw Hr. cbn [pw] in Hw. destruct ts as [|a [|b more]]; [discriminate|discriminate|].
+    inversion HPT as [|? ? Ha Hmore]; subst. cbn [fold_right] in Hw.
+    destruct n as [|n]; [lia|]. cbn [tk map]. rewrite tjoin_flat. rewrite p_expr_S. rewrite <- app_assoc. rewrite Ha.
+    + change (flat_map (fun y => KBar :: y) (tk b :: map tk more)) with (flat_map (fun y => KBar :: y) (map tk (b :: more))).
+      rewrite (p_bars_list (b :: more) [a] n rest Hmore); [reflexivity| |exact Hr].
+      cbn [fold_right]. lia.
+    + lia.
+    + reflexivity.
+Qed.
+
+Lemma pw_le_tokens t : shape_ok t = true -> pw t <= 2 * List.length (tk t).
+Proof.
+  induction t as [nm|nm args IH|ts IH] using texp_ind2; intros Hs; [cbn; lia| |].
+  - cbn [shape_ok] in Hs. apply andb_true_iff in Hs as [_ Has]. rewrite forallb_forall in Has. rewrite Forall_forall in IH.
+    cbn [pw tk List.length]. rewrite app_length. cbn [List.length].
+    assert (H : forall l, (forall x, In x l -> In x args) ->
+              fold_right (fun x acc => S (pw x) + acc) 0 l <= 2 * List.length (tjoin KComma (map tk l)) + 1).
+    { induction l as [|x l IHl]; intros Hsub; [cbn; lia|].
+      assert (Hx : pw x <= 2 * List.length (tk x)) by (apply IH; [apply Hsub; now left|apply Has, Hsub; now left]).
+      specialize (IHl (fun y Hy => Hsub y (or_intror Hy))).
+      destruct l as [|y l]; [cbn [tjoin fold_right map] in *; lia|].
+      cbn [fold_right map] in *. rewrite tjoin_cons2, app_length. cbn [List.length]. lia. }
+    specialize (H args (fun x Hx => Hx)). lia.
+  - cbn [shape_ok] in Hs. apply andb_true_iff in Hs as [Hlen Has]. rewrite forallb_forall in Has. rewrite Forall_forall in IH.
+    cbn [pw tk].
+    assert (H : forall l, (forall x, In x l -> In x ts) -> l <> [] ->
+              fold_right (fun x acc => pw x + acc) 0 l + 2 <= 2 * List.length (tjoin KBar (map tk l)) + 2 * 1
+              /\ (2 <= List.length l -> 1 + fold_right (fun x acc => pw x + acc) 0 l <= 2 * List.length (tjoin KBar (map tk l)))).
+    { induction l as [|x l IHl]; intros Hsub Hne; [congruence|].
+      assert (Hx : pw x <= 2 * List.length (tk x)).
+      { apply IH; [apply Hsub; now left|]. specialize (Has x (Hsub x (or_introl eq_refl))). now apply andb_true_iff in Has as [_ Has]. }
+      destruct l as [|y l].
+      - cbn [fold_right map tjoin List.length]. split; [lia|intros; lia].
+      - destruct (IHl (fun z Hz => Hsub z (or_intror Hz)) ltac:(discriminate)) as [I1 _].
+        cbn [map] in *. rewrite tjoin_cons2, app_length. cbn [List.length fold_right] in *. split; [lia|intros _; lia]. }
+    destruct ts as [|a [|b more]]; [discriminate|discriminate|].
+    destruct (H (a :: b :: more) (fun x Hx => Hx) ltac:(discriminate)) as [_ H2]. apply H2. cbn [List.length]. lia.
+Qed.
+
+(* the parser reads the text of an annotation back *)
+Theorem parse_pr t : names_ok t = true -> shape_ok t = true -> parse (pr t) = Some t.
+Proof.
+  intros Hn Hs. unfold parse, lex.
+  assert (E : lex_acc (pr t) [] = tk t).
+  { pose proof (lex_pr t Hn Hs [] eq_refl) as H0. rewrite app_nil_r in H0.
+    change (lex_acc [] []) with (@nil tok) in H0. now rewrite app_nil_r in H0. }
+  rewrite E. destruct (parse_tokens t Hn Hs) as [_ HE].
+  specialize (HE (S (2 * List.length (tk t))) []). rewrite app_nil_r in HE. rewrite HE; [reflexivity| |reflexivity].
+  pose proof (pw_le_tokens t Hs). lia.
+Qed.
+
+Lemma shape_ok_to_old t : shape_ok t = true -> shape_ok (to_old t) = true.
+Proof.
+  induction t as [n|n args IH|ts IH] using texp_ind2; intros H; [exact H| |]; cbn [to_old shape_ok] in *.
+  - apply andb_true_iff in H as [Hne Ha]. rewrite forallb_forall in Ha. rewrite Forall_forall in IH.
+    apply andb_true_iff. split; [destruct args; [discriminate|reflexivity]|].
+    apply forallb_forall. intros x Hx. apply in_map_iff in Hx as [a [<- Hin]]. auto.
+  - apply andb_true_iff in H as [Hlen Ha]. rewrite forallb_forall in Ha. rewrite Forall_forall in IH.
+    apply andb_true_iff. split; [destruct ts; [discriminate|reflexivity]|].
+    apply forallb_forall. intros x Hx. apply in_map_iff in Hx as [a [<- Hin]].
+    specialize (Ha a Hin). apply andb_true_iff in Ha as [_ Ha]. auto.
+Qed.
+
+(* C17_rewriter on the sub-grammar: the rewritten text parses, and means what the original text means *)
+Theorem rewriter_partial_parse t :
+  names_ok t = true -> shape_ok t = true -> rw_ok t = true ->
+  exists s', old_style_gen (pr t) = Ok s' /\ exists t', parse s' = Some t' /\ denote t' = denote t.
+Proof.
+  intros Hn Hs Hr. exists (pr (to_old t)). split; [now apply rewriter_partial|].
+  exists (to_old t). split; [|apply denote_to_old].
+  apply parse_pr; [now apply names_ok_to_old|now apply shape_ok_to_old].
 Qed.
